@@ -20,7 +20,7 @@ pub fn property() -> Property {
     Property {
         id: "C13",
         level: "fault_enumeration",
-        rule: "Real loopback sockets; peers are harness threads with scripted stalls. Stall point in {upload not read (8 MiB body), inside the status line, between header lines, after the blank line, after k body bytes (length / close framing), inside a chunk-size line, inside chunk data, before the terminal chunk, during the TLS handshake of a direct https dial, inside the CONNECT reply, inside the tunnel} x {silent stall, one byte every R/3} x timeouts {T=300 ms, T=150 ms, T=300 ms + R=100 ms, R=150 ms alone, T=0 (deadline already expired when the connection is made), T=20 s + R=150 ms (the read timeout must fire although an overall timeout is set), R=0 alone (boundary value: every stall is longer than it; the call ends with an error at once, it must not turn into 'no read timeout')} and redirect chains of fast hops that together exceed T. Oracle: (a) the call returns Err within T (or R) + 1.5 s although the peer would hold it for 20 s; (d) the first end-of-body signal is never Ok for a body the peer had not finished; (c) converse histories (T in {1.5 s, 10 s, 2^62 s, Duration::MAX}) - complete responses of every framing, read with loops of several buffer sizes plus up to 5 further reads after end-of-body spread over 200 ms - never see TimedOut (nor any error) before t0+T; (e) 250 ms after the response/error is dropped the process has no more threads or file descriptors than before the case. Hook H3 (schedule points in the watchdog thread and around the reader's end-of-stream ping) holds either thread at each label in turn (<= 400 ms) for the scenarios {genuine end of stream before the deadline, stall cut by the deadline} x {close-delimited, length-delimited}; the recorded label sequences are the distinct interleavings observed; 'stale watchdog' scenarios hold the watchdog of a finished, dropped request at wd.wake / wd.dropped / wd.shutdown while the NEXT request (T = 30 s) runs and release it in the middle of that body, which must arrive complete. Resource fault 'fd-exhaustion': RLIMIT_NOFILE is lowered and the descriptor table filled so that k in {0,1,2,3} slots are free when the connection is made (k=1: the socket can be opened, the watchdog's own handle on it cannot) against a listener that never answers: the call still returns within T + margin. Load probe: a case whose 20 ms sleep oversleeps by > 150 ms is retried (x3) and then counted inconclusive, never as a violation. Non-trivial: every scenario; distinct = hash(scenario).",
+        rule: "Real loopback sockets; peers are harness threads with scripted stalls. Stall point in {upload not read (8 MiB body), inside the status line, between header lines, after the blank line, after k body bytes (length / close framing), inside a chunk-size line, inside chunk data, before the terminal chunk, during the TLS handshake of a direct https dial, inside the CONNECT reply, inside the tunnel} x {silent stall, one byte every R/3} x timeouts {T=300 ms, T=150 ms, T=300 ms + R=100 ms, R=150 ms alone, T=0 (deadline already expired when the connection is made), T=20 s + R=150 ms (the read timeout must fire although an overall timeout is set), R=0 alone (boundary value: every stall is longer than it; the call ends with an error at once, it must not turn into 'no read timeout')} and redirect chains of fast hops that together exceed T. Oracle: (a) the call returns Err within T (or R) + 1.5 s although the peer would hold it for 20 s; (d) the first end-of-body signal is never Ok for a body the peer had not finished; (c) converse histories (T in {1.5 s, 10 s, 2^62 s, Duration::MAX}) - complete responses of every framing, read with loops of several buffer sizes plus up to 5 further reads after end-of-body spread over 200 ms - never see TimedOut (nor any error) before t0+T; (e) 250 ms after the response/error is dropped the process has no more threads or file descriptors than before the case. Hook H3 (schedule points in the watchdog thread and around the reader's end-of-stream ping) holds either thread at each label in turn (<= 400 ms) for the scenarios {genuine end of stream before the deadline, stall cut by the deadline} x {close-delimited, length-delimited}; the recorded label sequences are the distinct interleavings observed; 'stale watchdog' scenarios hold the watchdog of a finished, dropped request at wd.wake / wd.dropped / wd.shutdown while the NEXT request (T = 30 s) runs and release it in the middle of that body, which must arrive complete; 'retrying caller' scenarios (R = 150 ms < T): a caller that reads again after every read-timeout error is still cut at T + margin when the peer has gone silent, and still receives a response that resumes and completes before T. Resource fault 'fd-exhaustion': RLIMIT_NOFILE is lowered and the descriptor table filled so that k in {0,1,2,3} slots are free when the connection is made (k=1: the socket can be opened, the watchdog's own handle on it cannot) against a listener that never answers: the call still returns within T + margin. Load probe: a case whose 20 ms sleep oversleeps by > 150 ms is retried (x3) and then counted inconclusive, never as a violation. Non-trivial: every scenario; distinct = hash(scenario).",
         assumptions: &["the connect phase is outside the statement and not judged", "Linux loopback; Windows branches are not run", "reads issued only after T has passed are not judged (the exchange as a whole exceeded T)"],
         min_nontrivial: |t| t.pick(60, 400),
         gens,
@@ -34,6 +34,7 @@ fn gens(tier: Tier) -> Vec<Gen> {
         Gen { name: "stalls", count: stall_count(tier), exhaustive: tier == Tier::Thorough, run: run_stall },
         Gen { name: "converse", count: tier.pick(24, 400), exhaustive: false, run: run_converse },
         Gen { name: "interleavings", count: (2 * 2 * 6) as u64, exhaustive: true, run: run_interleaving },
+        Gen { name: "retrying-caller", count: (3 * 2 * 2) as u64, exhaustive: true, run: run_retrying_caller },
         Gen { name: "stale-watchdog", count: (3 * 2) as u64, exhaustive: true, run: run_stale_watchdog },
         Gen { name: "fd-exhaustion", count: (4 * 2) as u64, exhaustive: true, run: run_fd_exhaustion },
         Gen { name: "redirect-chain", count: tier.pick(2, 8), exhaustive: false, run: run_redirect_chain },
@@ -734,4 +735,118 @@ fn run_stale_watchdog(ctx: &mut Ctx, _rng: &mut Rng, index: u64) {
         }
     }
     ctx.nontrivial(format!("sw{index}").as_bytes());
+}
+
+// ---- a caller that retries reads which ended in the READ timeout (WouldBlock) ----------------------
+//
+// R < T. (a) the peer goes silent for good in the middle of the body: every read ends in
+// WouldBlock after R, the caller simply reads again - the overall deadline still ends the call by
+// T + margin. (b) the peer is silent for longer than R and then completes the response well before
+// T: after the retried WouldBlock the body arrives complete, with a clean end, and is never
+// reported as timed out.
+
+fn run_retrying_caller(ctx: &mut Ctx, _rng: &mut Rng, index: u64) {
+    let framing = index % 3; // 0 length, 1 chunked, 2 close
+    let completes = (index / 3) % 2 == 1;
+    let long_t = (index / 6) % 2 == 1;
+    let r_ms = 150u64;
+    let t_ms: u64 = if completes { 20_000 } else if long_t { 900 } else { 600 };
+    for attempt in 0..3 {
+        if oversleep() > Duration::from_millis(150) {
+            if attempt == 2 {
+                ctx.inconclusive("machine too loaded for a timing case (3 attempts)");
+            }
+            continue;
+        }
+        let stop = Arc::new(AtomicBool::new(false));
+        let stop2 = stop.clone();
+        let leak = LeakGuard::start();
+        let server: Server<()> = Server::spawn(move |mut s: TcpStream| {
+            let _ = read_head(&mut s);
+            let (first, rest): (&[u8], &[u8]) = match framing {
+                0 => (b"HTTP/1.1 200 OK\r\nContent-Length: 20\r\n\r\n0123456789", b"abcdefghij"),
+                1 => (b"HTTP/1.1 200 OK\r\nTransfer-Encoding: chunked\r\n\r\na\r\n0123456789\r\n", b"a\r\nabcdefghij\r\n0\r\n\r\n"),
+                _ => (b"HTTP/1.1 200 OK\r\n\r\n0123456789", b"abcdefghij"),
+            };
+            write_all_ignore(&mut s, first);
+            if completes {
+                // silent for longer than the read timeout, then the rest, then close
+                std::thread::sleep(Duration::from_millis(450));
+                write_all_ignore(&mut s, rest);
+            } else {
+                stall(&mut s, b"", None, &stop2);
+            }
+        });
+        let t0 = Instant::now();
+        let mut delivered = Vec::new();
+        let mut retried = 0u32;
+        let mut end: Result<(), String> = Ok(());
+        let mut clean = false;
+        match attohttpc::get(format!("http://127.0.0.1:{}/c13r", server.port)).timeout(Duration::from_millis(t_ms)).read_timeout(Duration::from_millis(r_ms)).send() {
+            Err(e) => end = Err(format!("send: {e:?}")),
+            Ok(mut resp) => {
+                let mut buf = [0u8; 64];
+                loop {
+                    match resp.read(&mut buf) {
+                        Ok(0) => {
+                            clean = true;
+                            break;
+                        }
+                        Ok(n) => delivered.extend_from_slice(&buf[..n]),
+                        // the read timeout: this caller reads again
+                        Err(e) if e.kind() == std::io::ErrorKind::WouldBlock && t0.elapsed() < Duration::from_millis(t_ms) + MARGIN => retried += 1,
+                        Err(e) => {
+                            end = Err(format!("read: {:?}: {e}", e.kind()));
+                            break;
+                        }
+                    }
+                }
+            }
+        }
+        let elapsed = t0.elapsed();
+        stop.store(true, Ordering::Relaxed);
+        drop(server);
+        let descr = format!("framing={} T={t_ms} ms R={r_ms} ms, the peer {}; the caller retried {retried} read-timeout errors: ended after {elapsed:?} with {end:?} (clean end: {clean}), delivered {:?}", ["length", "chunked", "close"][framing as usize], if completes { "is silent for 450 ms and then completes the response" } else { "goes silent for good in the middle of the body" }, show(&delivered));
+        ctx.count("retrying_caller_scenarios", 1);
+        ctx.count("read_timeouts_retried", retried as u64);
+        // a chunked reader ends the body after ANY failed refill (fix #1): reading on after the
+        // read-timeout error gives Ok(0) there. What later reads return after an error is the gray
+        // zone recorded for C02 (Err or Ok(0)); the error itself was reported, so this is not judged
+        let chunked_gray = framing == 1 && retried > 0 && clean && end.is_ok();
+        if chunked_gray {
+            ctx.count("chunked_body_ended_after_a_retried_read_timeout", 1);
+            ctx.gray();
+        }
+        let verdict: Option<(String, String)> = if chunked_gray {
+            None
+        } else if completes {
+            if end.is_err() || !clean || delivered != b"0123456789abcdefghij" {
+                Some((format!("false-timeout-or-error-before-deadline:retrying-caller:{}", ["length", "chunked", "close"][framing as usize]), format!("a response that completed long before the deadline was not delivered completely; {descr}")))
+            } else {
+                None
+            }
+        } else if clean {
+            Some(("false-completion:retrying-caller".into(), format!("a body cut by the deadline was reported as complete; {descr}")))
+        } else if elapsed > Duration::from_millis(t_ms) + MARGIN {
+            Some(("timing:not-bounded:retrying-caller".into(), format!("the overall deadline no longer ended the call once the caller had retried a read timeout; {descr}")))
+        } else {
+            None
+        };
+        match verdict {
+            Some((sig, detail)) => {
+                if sig.starts_with("timing:") && attempt < 2 {
+                    ctx.count("timing_verdicts_rechecked", 1);
+                    continue;
+                }
+                ctx.violation(sig, detail);
+            }
+            None => {
+                if let Some(l) = leak.check() {
+                    ctx.violation("leak-after-drop:retrying-caller", format!("{l} 250 ms after the response was dropped; {descr}"));
+                }
+            }
+        }
+        break;
+    }
+    ctx.nontrivial(format!("rc{index}").as_bytes());
 }
